@@ -130,6 +130,15 @@ def gen_scenario(rng, idx):
         # in one packet), QM, QU or legacy unicast; offsets are relative to the completion of the registration
         sc["qann"] = [{"off": rng.choice([1, 1, 50, 100, 224, 226, 300, 449, 451, 600]), "kind": rng.choice(["resolve", "resolve", "srv+a", "ptr+srv+aaaa", "srv"]),
                        "mode": rng.choice(["qm", "qm", "qu", "legacy"])} for _ in range(rng.choice([1, 1, 2, 3]))]
+    if rng.random() < 0.12:
+        # registered with strict=False: a service type that RFC 6335 does not allow (underscore inside, more than 15 characters) is
+        # accepted, and so must be every '-N' candidate of a rename (C09-w5-seed2)
+        sc["strict"] = False
+        sc["type"] = rng.choice(["_ibisip_http._tcp.local.", "_a_very_long_service_type._udp.local."])
+        for key in ("pre", "inj"):
+            for e in sc[key]:
+                e["alias"] = e["alias"].replace("." + type_, "." + sc["type"]).replace("." + type_.swapcase(), "." + sc["type"].swapcase()).replace("." + type_.upper(), "." + sc["type"].upper())
+        type_ = sc["type"]
     if rng.random() < 0.15:
         sc["ifaces"] = 2  # a host with two interfaces: every probe and announcement leaves on both
     if kind in ("inject", "peer", "quiet") and "qann" not in sc:
@@ -324,7 +333,7 @@ def run_scenario(sc):
                 except Exception:  # noqa: BLE001  (the suffixed name is not a valid service name)
                     break
                 await sim.sleep_until(WARM - 20000 + n * 2000)
-                t = await peer.zc.async_register_service(pi)
+                t = await peer.zc.async_register_service(pi, strict=sc.get("strict", True))
                 await t
         # host A is created after the peer has announced, so that it learns the conflict only from the probe replies;
         # without a peer, early enough to learn the pre-populated entries
@@ -403,7 +412,7 @@ def run_scenario(sc):
         async def scenario_register(info):
             first_name = info.name
             try:
-                task = await za.async_register_service(info, ttl=sc["ttl_arg"], allow_name_change=sc["allow"])
+                task = await za.async_register_service(info, ttl=sc["ttl_arg"], allow_name_change=sc["allow"], strict=sc.get("strict", True))
                 results.append(("ok", info.name))
                 schedule_name_questions(info, first_name)
                 for q in sc.get("qann", []):
@@ -550,7 +559,7 @@ def invalid_names(sc, upto, inst=None):
     for n in range(2, upto + 1):
         nm = "%s-%d.%s" % (inst, n, sc["type"])
         try:
-            service_type_name(nm, strict=True)
+            service_type_name(nm, strict=sc.get("strict", True))
         except Exception:  # noqa: BLE001
             bad.append(nm)
     return bad
@@ -664,6 +673,10 @@ def oracle(sc, obs, res, case):
                             viol.append(("C09:invalid-candidate-accepted", "a candidate name that is not a valid service name did not fail the registration"))
                         abandoned_by_call.setdefault(ci, set()).update(trail)
                         break
+                    if b["end"][0] == "raise":
+                        # the first free suffix is a valid name (under the rules the caller registered with): the registration proceeds
+                        viol.append(("C09:rename-raised-although-suffix-free", "conflict, renaming allowed, first free suffix %r is a valid name (strict=%s), but the registration failed with %s"
+                                     % (want, sc.get("strict", True), b["end"][1])))
                     if after != want:
                         viol.append(("C09:not-first-free-suffix", "after a conflict the name is %r, first free suffix is %r" % (after, want)))
                     elif not b["sends"]:
@@ -861,6 +874,8 @@ def evaluate(sc, res, lines, pending):
         res.count("name-question:%s:%s" % (q["role"], q["mode"]))
     if sc.get("ifaces", 1) > 1:
         res.count("two-interfaces")
+    if not sc.get("strict", True):
+        res.count("strict=False:non-rfc6335-type")
     if len(sc["text"]) > 2000:
         res.count("txt-needs-own-datagram")
     if obs["errors"]:
